@@ -56,6 +56,8 @@ func main() {
 		libMode(os.Args[2:])
 	case "libcorr":
 		libCorr(os.Args[2:])
+	case "share":
+		shareMode(os.Args[2:])
 	case "pools":
 		p := loadPools()
 		for i, n := range p.textN {
@@ -1952,6 +1954,10 @@ func replay(args []string) {
 	p := loadPools()
 	if c.Input.Mode == "lib" || c.Mode == "lib" {
 		libReplay(p, reqs)
+		return
+	}
+	if c.Input.Mode == "share" || c.Mode == "share" {
+		shareReplay(p, reqs)
 		return
 	}
 	o := &orun{p: p, dist: map[string]int{}, nontr: map[string]bool{}}
